@@ -63,6 +63,12 @@ impl Gen {
                 if boxed {
                     v.push("boxed_value_created_per_dsp_call".to_string());
                 }
+                if self.family == "FB" && self.ops.first().map(|o| o.contains("inside a tuple")).unwrap_or(false) {
+                    v.push("recursive_reference_inside_a_tuple".to_string());
+                    if self.ops.iter().any(|o| o == "sum(last)") {
+                        v.push("list_with_reference_inside_a_tuple_traversed".to_string());
+                    }
+                }
                 if t.contains("| | sum(") || t.contains("let f = |v|") || t.contains("apply(|v|") {
                     v.push("closure_created_per_dsp_call".to_string());
                 }
@@ -1626,11 +1632,14 @@ const FB_RADIX: u64 = 14;
 /// every operation sequence in two variants: the list element is a float, or a pair of floats (a multi-word payload
 /// element in front of the recursive reference)
 pub fn fb_count(k: u32) -> u64 {
-    2 * seq_count(FB_RADIX, k)
+    3 * seq_count(FB_RADIX, k)
 }
 pub fn fb_decode(idx: u64, k: u32) -> Option<Gen> {
-    let wide = idx % 2 == 1;
-    let digits = seq_decode(idx / 2, FB_RADIX, k);
+    if idx % 3 == 2 {
+        return fb_decode_nested(idx / 3, k);
+    }
+    let wide = idx % 3 == 1;
+    let digits = seq_decode(idx / 3, FB_RADIX, k);
     // element written from a float expression, the element type, and the float value of a bound element `h`
     let el = |a: &str| if wide { format!("({a}, 1.0)") } else { a.to_string() };
     let (elty, hval) = if wide { ("(float, float)", "(h.0 + h.1)") } else { ("float", "h") };
@@ -1740,6 +1749,48 @@ pub fn fb_decode(idx: u64, k: u32) -> Option<Gen> {
         src.push_str(&format!("let gl = Cons({}, Cons({}, Nil))\n", el("7.0"), el("8.0")));
     }
     src.push_str(&format!("fn dsp(x: float) -> float {{\n{body}  {ret}\n}}\n"));
+    Some(Gen { prog: Prog::default(), family: "FB", inputs: 1, ops, ft: None, text: Some(src) })
+}
+
+/// third variant of FB: the recursive reference sits inside a tuple (`Cons((float, List))`); a subset of the operations
+fn fb_decode_nested(idx: u64, k: u32) -> Option<Gen> {
+    let digits = seq_decode(idx, FB_RADIX, k);
+    let mut lists: Vec<String> = vec![];
+    let mut floats: Vec<String> = vec!["x".into()];
+    let mut body = String::new();
+    let mut ops = vec!["the recursive reference is inside a tuple".to_string()];
+    let mut n = 0;
+    for d in digits {
+        n += 1;
+        let lastf = floats.last().unwrap().clone();
+        match d {
+            0 => {
+                body.push_str(&format!("  let l{n} = Cons(({lastf}, Cons((1.0, Nil))))\n"));
+                lists.push(format!("l{n}"));
+                ops.push("new list".into());
+            }
+            1 => {
+                let l = lists.last()?.clone();
+                body.push_str(&format!("  let l{n} = Cons((2.0, {l}))\n"));
+                lists.push(format!("l{n}"));
+                ops.push("cons onto last (sharing)".into());
+            }
+            2 => {
+                let l = lists.last()?.clone();
+                body.push_str(&format!("  let s{n} = sum({l})\n"));
+                floats.push(format!("s{n}"));
+                ops.push("sum(last)".into());
+            }
+            13 => {
+                body.push_str(&format!("  let l{n} = Cons(({lastf}, Nil))\n"));
+                lists.push(format!("l{n}"));
+                ops.push("new one-cell list".into());
+            }
+            _ => return None,
+        }
+    }
+    let ret = floats.last().unwrap().clone();
+    let src = format!("type rec List = Nil | Cons((float, List))\nfn sum(list: List) -> float {{\n  match list {{\n    Nil => 0.0,\n    Cons(p) => p.0 + sum(p.1)\n  }}\n}}\nfn dsp(x: float) -> float {{\n{body}  {ret}\n}}\n");
     Some(Gen { prog: Prog::default(), family: "FB", inputs: 1, ops, ft: None, text: Some(src) })
 }
 
